@@ -1,7 +1,9 @@
 import Driver.Drv.Lru
+import Driver.Drv.PushTx
 namespace Driver
 
 def drivers : List (String × CaseFn) := [
-  ("lru", Driver.Drv.Lru.runCase)]
+  ("lru", Driver.Drv.Lru.runCase),
+  ("pushtx", Driver.Drv.PushTx.runCase)]
 
 end Driver
